@@ -63,7 +63,7 @@ theorem receiver_delivers {W WC} (ci : Cipher W WC)
     rw [← st1] at hrest
     have step : readRTP ci { inCtx := some c, remoteSSRC := remote } (frameOf ci c.key c.mki ssrc jp) =
         ({ inCtx := some c1, remoteSSRC := some ssrc }, .deliver jp.2) := by
-      rcases hr with hr | hr <;> subst hr <;> simp [readRTP, frameOf, e1]
+      rcases hr with hr | hr <;> subst hr <;> simp [readRTP, wrongSSRC, latch, frameOf, e1]
     have := ih c1 (some ssrc) (Or.inr rfl) hrest
     simp only [List.map_cons, recvAll, step]
     rw [← k1, ← m1, this]
@@ -93,41 +93,45 @@ theorem readRTP_keeps_key {W WC} (ci : Cipher W WC) (r : RecvFmt) (f : Frame W) 
   simp only at hc
   subst hc
   obtain ⟨ssrc, seq, body⟩ := f
-  have aux : ∀ (x : RecvFmt) (w : W), x.inCtx = some c →
-      ∃ c', (match c.decryptRTP ci ssrc seq w with
-        | none => (x, ReadRes.decodeError)
-        | some (c', p') => ({ x with inCtx := some c' }, .deliver p')).1.inCtx = some c' ∧ c'.key = c.key ∧ c'.mki = c.mki := by
-    intro x w hx
-    cases hd : c.decryptRTP ci ssrc seq w with
-    | none => exact ⟨c, hx, rfl, rfl⟩
-    | some cp =>
-      obtain ⟨c', p'⟩ := cp
-      refine ⟨c', rfl, ?_⟩
-      unfold Ctx.decryptRTP at hd
-      simp only at hd
-      split at hd
-      · cases hd
-      · injection hd with hd
-        injection hd with h1 _
-        subst h1
-        exact ⟨rfl, rfl⟩
-  cases body with
-  | plain b =>
-    cases remote with
-    | none => exact ⟨c, by simp [readRTP], rfl, rfl⟩
-    | some s =>
-      by_cases hs : ssrc ≠ s
-      · exact ⟨c, by simp [readRTP, hs], rfl, rfl⟩
-      · exact ⟨c, by simp [readRTP, hs], rfl, rfl⟩
-  | prot w =>
-    cases remote with
-    | none =>
-      simp only [readRTP]
-      exact aux _ w rfl
-    | some s =>
-      by_cases hs : ssrc ≠ s
-      · exact ⟨c, by simp [readRTP, hs], rfl, rfl⟩
-      · simp only [readRTP, hs, Option.isSome_some, and_false, if_false]
-        exact aux _ w rfl
+  unfold readRTP
+  split
+  · exact ⟨c, rfl, rfl, rfl⟩
+  · cases body with
+    | plain b => exact ⟨c, rfl, rfl, rfl⟩
+    | prot w =>
+      simp only
+      cases hd : c.decryptRTP ci ssrc seq w with
+      | none => exact ⟨c, rfl, rfl, rfl⟩
+      | some cp =>
+        obtain ⟨c', p'⟩ := cp
+        refine ⟨c', rfl, ?_⟩
+        unfold Ctx.decryptRTP at hd
+        simp only at hd
+        split at hd
+        · cases hd
+        · injection hd with hd
+          injection hd with h1 _
+          subst h1
+          exact ⟨rfl, rfl⟩
+
+/-- a rejected frame leaves no trace in the receiver (neither in the context nor in the SSRC latch) -/
+theorem readRTP_reject_no_trace {W WC} (ci : Cipher W WC) (r : RecvFmt) (f : Frame W)
+    (h : (readRTP ci r f).2 = .decodeError) : (readRTP ci r f).1 = r := by
+  obtain ⟨inCtx, remote⟩ := r
+  obtain ⟨ssrc, seq, body⟩ := f
+  unfold readRTP at h ⊢
+  by_cases hw : wrongSSRC { inCtx := inCtx, remoteSSRC := remote } ssrc = true
+  · simp [hw]
+  · simp only [hw, Bool.false_eq_true, if_false] at h ⊢
+    cases inCtx with
+    | none => cases body <;> simp at h
+    | some c =>
+      cases body with
+      | plain b => rfl
+      | prot w =>
+        simp only at h ⊢
+        cases hd : c.decryptRTP ci ssrc seq w with
+        | none => rfl
+        | some cp => simp [hd] at h
 
 end Rtsp.Sec
